@@ -152,7 +152,11 @@ def gen_cases(ctx):
         elif rng.random() < 0.15:
             # the empty pattern is a pattern too: it matches every name
             o["test"] = rng.choice([["t1 ", ""], ["", "t2 "], ["", "!t1 "], [""]])
-        if "pa.tests" in w["modules"] and layout is None and rng.random() < 0.4:
+        if layout is None and not any(m_.get("importError") for m_ in w["modules"].values()) and rng.random() < 0.2:
+            # --module patterns - among them ones that are also the name of a directory or file where the run starts
+            # (pa, tests): a pattern is a pattern, in the main process and in every layer subprocess
+            o["modpat"] = rng.choice([["pa"], ["tests"], ["pb", "pa"], ["^pa\\."], ["!pb"], ["tests", "!pa"], ["."], ["wrt"]])
+        elif "pa.tests" in w["modules"] and layout is None and rng.random() < 0.4:
             # a directory under the search path that is also mapped into its package (--package-path): its files are
             # reached twice and loaded once
             o["pkgpath"] = "pa"
